@@ -196,6 +196,21 @@ func handleOpen(h *Handler, iq openIQ, e xmlstream.Encoder) error {
 		}))
 		return err
 	}
+	// There is one stream per session ID. A request that names the ID of a
+	// stream that is live cannot be granted: registering it would take the ID
+	// away from the live stream (its data would be fed to the new one), and the
+	// request would wait for an Accept call that the application, which has its
+	// stream already, may never make - with the session's serve loop blocked.
+	h.mu.Lock()
+	_, inUse := h.streams[iq.Open.SID]
+	h.mu.Unlock()
+	if inUse {
+		_, err := xmlstream.Copy(e, iq.Error(stanza.Error{
+			Type:      stanza.Cancel,
+			Condition: stanza.NotAcceptable,
+		}))
+		return err
+	}
 	_, err := xmlstream.Copy(e, iq.Result(nil))
 	if err != nil {
 		return err
